@@ -89,15 +89,20 @@ def lone_surrogate_in_key(doc):
 class C14(Spec):
     prop = "C14"
     lean_modules = ["SonicSpec.Props.C14"]
+    needs_factx = True      # Gen.maxRecurse (types.MAX_RECURSE) is the bound of the Preorder model
     rule = ("valid documents built as trees and spelled adversarially (escaped and duplicated keys, containers and strings "
             "full of brackets/quotes/backslashes as skipped siblings, white space runs, >16 and >256 members, sibling lengths "
             "swept across 16/32/64-byte blocks) x paths (existing, missing, wrong kind, out of range, negative) x 8 SearchOptions "
-            "x 13 entry points; Preorder on valid and mutated documents. A get case is non-trivial when the path is not empty "
+            "x 13 entry points; sequences of lookups (hit, miss, hit again, last, after LoadAll/Interface/iteration/Len) on ONE root "
+            "node of 6 kinds for objects/arrays of 3/16/17/40.. members; Preorder on valid and mutated documents, on documents with "
+            "> MAX_RECURSE sibling empty containers at depth <= 5, at the nesting boundary, and with a skipping visitor. A get case is non-trivial when the path is not empty "
             "(a search step ran); a pre case when the document has a container or an escape")
     trusted_base = ["native get_by_path/skip_one_fast/skip_one machine code and the Go lazy loader are modelled "
                     "(Model/Search.lean), tied by correspondence only",
                     "encoding/json token walker (first occurrence) as executable reference"]
-    assumptions = ["documents are valid JSON and valid UTF-8 (the property quantifies over valid documents); "
+    assumptions = ["Preorder is bounded by types.MAX_RECURSE nested containers (documented error beyond; the model has the same bound, "
+                   "re-read from the source, and the judge requires the depth error exactly when the real depth exceeds it)",
+                   "documents are valid JSON and valid UTF-8 (the property quantifies over valid documents); "
                    "paths for sonic.Get* use indexes >= 0 (documented precondition: a negative index panics)",
                    "Raw() is compared as the value it denotes and byte-for-byte up to trailing white space"]
 
@@ -105,11 +110,13 @@ class C14(Spec):
         envs = {"default": {}, "noavx2": {"SONIC_MODE": "noavx2"}}
         q = tier == "quick"
         return [
-            Stream("get", "c14.get", 600 if q else 25000, envs=envs, timeout=0.2),
+            Stream("seq", "c14.seq", 300 if q else 20000, envs=envs, timeout=0.2),
+            Stream("wide", "c14.wide", 0, envs=envs, timeout=2.0),         # fixed set: > MAX_RECURSE siblings, depth boundary
+            Stream("get", "c14.get", 450 if q else 25000, envs=envs, timeout=0.2),
             Stream("sweep", "c14.sweep", 0, envs=envs, timeout=0.2),       # size fixed by the tier
-            Stream("dup", "c14.dup", 250 if q else 6000, envs=envs, timeout=0.2),
-            Stream("surrogate", "c14.surr", 120 if q else 3000, envs=envs, timeout=0.2),
-            Stream("preorder", "c14.pre", 1200 if q else 40000, envs=envs, timeout=0.2),
+            Stream("dup", "c14.dup", 120 if q else 6000, envs=envs, timeout=0.2),
+            Stream("surrogate", "c14.surr", 80 if q else 3000, envs=envs, timeout=0.2),
+            Stream("preorder", "c14.pre", 800 if q else 40000, envs=envs, timeout=0.2),
         ]
 
     # ------------------------------------------------------------------ get
@@ -221,6 +228,16 @@ class C14(Spec):
             ref = s.get("ref")
             if ref is None or ref == "invalid" or s.get("u8") != "1":
                 continue
+            m = model.get(env) or {}
+            too_deep = m.get("model") == "depth"      # real nesting depth > MAX_RECURSE (theorem preorder_depth_error_iff)
+            if sv == "depth":
+                if not too_deep:
+                    out.append(("preorder-depth-error-on-shallow", "%s: real depth %s, ref=%s" % (env, m.get("depth"), ref[:200])))
+                continue
+            if too_deep:
+                # documented bound: the traversal must stop with the depth error, not deliver events
+                out.append(("preorder-no-depth-error", "%s: real depth %s, sonic=%s" % (env, m.get("depth"), (sv or "")[:100])))
+                continue
             if sv == "err":
                 if s.get("frange") == "1":
                     continue    # a number outside float64: encoding/json into interface{} fails too
@@ -232,9 +249,10 @@ class C14(Spec):
                 out.append(("preorder-number-value", "%s: %s" % (env, s.get("numck"))))
             elif s.get("onlynum") != "same" and s.get("frange") != "1":
                 out.append(("preorder-onlynumber", "%s: %s" % (env, (s.get("onlynum") or "")[:300])))
-            m = model.get(env) or {}
-            if "model" in m and m["model"] != sv and sv != ref:
-                pass
+            # the same traversal with a visitor that answers VisitOPSkip for every nested container
+            sk, rsk = s.get("skip"), s.get("refskip")
+            if sk is not None and rsk not in (None, "invalid") and sk != rsk:
+                out.append(("preorder-skip-events", "%s: skip=%s ref=%s" % (env, sk[:300], rsk[:300])))
         return out
 
     def _mr_pre(self, case, sonic, model):
@@ -245,7 +263,75 @@ class C14(Spec):
             ref = s["ref"]
             if (m.get("valid") == "1") != (ref != "invalid"):
                 return True
-            if ref != "invalid" and m["model"] != ref:
+            if ref == "invalid":
+                continue
+            if m["model"] == "depth":
+                # the model claims the real depth exceeds the bound: check it on the reference's events
+                d = mx = 0
+                for e in ref[3:].split(","):
+                    if e in ("[", "{"):
+                        d += 1
+                        mx = max(mx, d)
+                    elif e in ("]", "}"):
+                        d -= 1
+                if mx <= 4096 or str(mx) != m.get("depth"):
+                    return True
+                continue
+            if m["model"] != ref:
+                return True
+            if s.get("refskip") not in (None, "invalid") and m.get("mskip") != s.get("refskip"):
+                return True
+        return False
+
+    # ------------------------------------------------------------------ sequences of lookups on one node
+    @staticmethod
+    def _seq_ok(a):
+        return a.startswith("ok:")
+
+    def _judge_seq(self, case, sonic, model):
+        out = []
+        for env, s in sonic.items():
+            if s.get("sonic") in ("PANIC", "CRASH", "HANG"):
+                out.append(("crash", "%s: %s" % (env, str(s)[:300])))
+                continue
+            ref = s.get("ref")
+            if ref is None or ref == "invalid" or s.get("u8") != "1":
+                continue
+            want = ref.split("|")
+            steps = case[2].split(";")
+            for root, ans in [("NR", s.get("sonic"))] + [(k[3:], v) for k, v in s.items() if k.startswith("alt")]:
+                got = (ans or "").split("|")
+                bad = []
+                idxobj = []
+                node = ((model.get(env) or {}).get("node") or "").split("|")
+                if len(got) != len(want):
+                    bad.append("answers=%s" % (ans or "")[:200])
+                else:
+                    for i, (g, w) in enumerate(zip(got, want)):
+                        if w == "-":
+                            continue
+                        if g.startswith("panic"):
+                            bad.append("step %d %s: %s" % (i, steps[i][:60], g))
+                        elif not self._seq_ok(w) and self._seq_ok(g) and "i:" in steps[i] and i < len(node) and node[i] == g:
+                            # Node.Index on an object (documented, listed finding): exactly the i-th pair's value
+                            idxobj.append("step %d %s: %s" % (i, steps[i][:60], g[:80]))
+                        elif self._seq_ok(w) != self._seq_ok(g) or (self._seq_ok(w) and g != w):
+                            bad.append("step %d %s: got %s want %s" % (i, steps[i][:60], g[:80], w[:80]))
+                if bad:
+                    out.append(("lookup-depends-on-history", "%s root=%s: %s | steps=%s" % (env, root, "; ".join(bad)[:600], case[2][:400])))
+                elif idxobj:
+                    out.append(("seq-index-on-object", "%s root=%s: %s" % (env, root, "; ".join(idxobj)[:400])))
+        return out
+
+    def _mr_seq(self, case, sonic, model):
+        for env, s in sonic.items():
+            m = model.get(env) or {}
+            ref = s.get("ref")
+            if "model" not in m or ref is None or s.get("u8") != "1":
+                continue
+            if (m["model"] == "invalid") != (ref == "invalid"):
+                return True
+            if ref != "invalid" and (m["model"] != ref or m.get("spec") != ref):
                 return True
         return False
 
@@ -255,6 +341,8 @@ class C14(Spec):
             return self._judge_get(case, sonic, model)
         if case[0] == "pre":
             return self._judge_pre(case, sonic, model)
+        if case[0] == "c14seq":
+            return self._judge_seq(case, sonic, model)
         return []
 
     def model_ref_disagree(self, case, sonic, model):
@@ -262,6 +350,8 @@ class C14(Spec):
             return self._mr_get(case, sonic, model)
         if case[0] == "pre":
             return self._mr_pre(case, sonic, model)
+        if case[0] == "c14seq":
+            return self._mr_seq(case, sonic, model)
         return False
 
     def nontrivial(self, case, sonic, model):
@@ -270,9 +360,13 @@ class C14(Spec):
         if case[0] == "pre" and case[1] != "-":
             b = bytes.fromhex(case[1])
             return any(c in b for c in b"[{\\")
+        if case[0] == "c14seq":
+            return sum(1 for st in case[2].split(";") if st[:1] in ("g", "c")) >= 2
         return False
 
     def shrink_fields(self, case):
+        if case[0] == "c14seq":
+            return [1] if case[1] != "-" else []
         return [2] if case[0] == "get" and len(case) > 2 and case[2] != "-" else ([1] if case[0] == "pre" and case[1] != "-" else [])
 
     # ------------------------------------------------------------------ known findings
@@ -301,6 +395,8 @@ class C14(Spec):
         def node_index_on_object(d, params):
             # Node.Index(i) on an object returns the value of its i-th pair (documented), where the
             # property's reference (and sonic.Get) finds nothing
+            if d["kind"] == "seq-index-on-object" and d["case"][0] == "c14seq":
+                return True     # the judge raises this kind only when the answer equals the model of Index-on-object
             if d["kind"] != "phantom-value" or d["case"][0] != "get":
                 return False
             if not any(e.startswith("i:") for e in path_elems(d["case"][3])):
